@@ -32,6 +32,7 @@ const (
 	MapWhole   = iota // the predecessor's whole output (at most one per node)
 	MapToField        // ToField(from): whole output under key <from>
 	MapFields         // MapFields(from, from+"_v"): one key of the predecessor's output
+	MapNested         // MapFieldPaths({from, from}, {from+"_v"}): a nested key of a predecessor with an output key
 )
 
 // Handler kinds.
@@ -72,6 +73,9 @@ type Node struct {
 	FailInState bool
 	// interrupts
 	RerunN int // number of attempts that answer InterruptAndRerun
+	// Detach: the body does some inner work under a callback context of its own without
+	// handlers (callbacks.InitCallbacks(ctx, info)): no handler of the run may see it
+	Detach bool
 	// AnyOut: the node's static output type is `any` (the values are the same maps): successors
 	// typed map[string]any get the framework's runtime type check on the edge / before the branch
 	AnyOut bool
@@ -226,6 +230,9 @@ func (g *gen) plan(name, prefix string, mode, depth int, stateAvail bool) *Plan 
 		}
 		if nd.Kind == KLambda {
 			g.lambda(nd)
+			if mode == ModeWorkflow && t.PlanBool(15) {
+				nd.OutKey = nd.Key // {key: {key: value}}: lets a successor map a nested field path
+			}
 		}
 		if p.State && g.o.Handlers {
 			// (a nested graph node takes state handlers like any other node)
@@ -581,6 +588,8 @@ func (g *gen) fixWorkflow(p *Plan) {
 			switch {
 			case nData == 1 && t.PlanBool(30):
 				e.Map = MapWhole
+			case simple && src != nil && src.OutKey != "" && t.PlanBool(40):
+				e.Map = MapNested // {key: {key: value}}: the inner value
 			case simple && t.PlanBool(40):
 				e.Map = MapFields
 			default:
@@ -622,7 +631,7 @@ func (p *Plan) keySets(startKeys map[string]bool) map[string]map[string]bool {
 					for x := range ks[e.From] {
 						s[x] = true
 					}
-				case MapFields:
+				case MapFields, MapNested:
 					s[e.From+"_v"] = true
 				}
 			}
@@ -674,7 +683,7 @@ func (p *Plan) endKeys(startKeys map[string]bool) map[string]bool {
 			switch {
 			case p.Mode == ModeWorkflow && e.Map == MapToField:
 				s[e.From] = true
-			case e.Map == MapFields:
+			case e.Map == MapFields || e.Map == MapNested:
 				s[e.From+"_v"] = true
 			default:
 				for x := range ks[e.From] {
@@ -848,7 +857,7 @@ func (p *Plan) Render() string {
 		}
 		m := ""
 		if p.Mode == ModeWorkflow && e.Data {
-			m = []string{"*", "@", "."}[e.Map]
+			m = []string{"*", "@", ".", ".."}[e.Map]
 		}
 		fmt.Fprintf(&sb, "%s%s%s%s ", e.From, c, e.To, m)
 	}
